@@ -2022,6 +2022,11 @@ class Controller:
 
             if self._restartComponent(component) == experiment.model.codes.restartCodes["RestartInitiated"]:
                 self.log.info("Restarted component with exitReason %s and returnCode %s" % (exitReason, returncode))
+            elif component.finishCalled:
+                # VV: _restartComponent() may wait (for system stability) without holding comp_lock; if the
+                # component was asked to finish() in the meantime it already has its final state - keep it
+                self.log.info("Component %s was asked to finish while its exit was being handled, "
+                              "it keeps state %s" % (reference, component.state))
             else:
                 TransitionComponentToFinalState(component, exitReason, returncode)
         except Exception as error:
